@@ -189,11 +189,21 @@ def c06_3(rep, ix, G):
     else:
         why = "arguments `%s`" % ", ".join(u(a) for a in c.args)
     if not ok and not why.startswith(("element", "iterates")):
-        # a different, recognisable shape: explicit start/stop arithmetic is refuted, anything else is outside the idiom set
-        if any(isinstance(x, ast.BinOp) for a in c.args for x in ast.walk(a)):
-            rep.bad(R, ix.site(ex, c), "range bounds are the INT tokens of the header, unmodified", why, key="range")
-        else:
+        # explicit form range(a, b[, c]): every argument must be int(<text of the i-th INT child>), bound once and unconditionally
+        good = 2 <= len(c.args) <= 3 and not c.keywords
+        detail = why
+        for a in c.args:
+            if isinstance(a, ast.Name):
+                defs = [n for n in walk_shallow(fn) if isinstance(n, (ast.Assign, ast.AugAssign)) and any(isinstance(x, ast.Name) and x.id == a.id and isinstance(x.ctx, ast.Store) for x in ast.walk(n))]
+                if len(defs) != 1:
+                    good = False
+                    detail = "`%s` is bound %d times: a range bound is adjusted after it was read from the header" % (a.id, len(defs))
+            elif any(isinstance(x, (ast.BinOp, ast.IfExp, ast.UnaryOp)) for x in ast.walk(a)):
+                good = False
+                detail = "`%s` is computed, not read from the header" % u(a)
+        if good:
             raise Inconclusive("exitForloop: range construction `%s` outside the idiom set" % u(c))
+        rep.bad(R, ix.site(ex, c), "range bounds are the INT tokens of the header, unmodified", detail, key="range")
     else:
         rep.check(ok, R, ix.site(ex, c), "range(*[int(text) for each INT child of rangeval, in order])", why, key="range")
     st = stmt_of(fn, c)
@@ -228,6 +238,14 @@ def c06_3(rep, ix, G):
         if isinstance(l, ast.For) and any(isinstance(x, ast.For) and u(x.iter) == "ctx.statement_list" for x in l.body):
             rep.check(u(l.iter) in names and len(names) == 1, R, ix.site(ex, l), "the outer loop runs over exactly the values produced by the header (`%s`)" % u(l.iter), "header values are collected in %s" % sorted(names),
                       key="outer source")
+            # ... and that collection is never converted or rebuilt between the header and the replay
+            src = u(l.iter)
+            for a in walk_shallow(fn):
+                if isinstance(a, ast.Assign) and any(isinstance(t, ast.Name) and t.id == src for t in a.targets) and a.lineno < l.lineno:
+                    v = a.value
+                    okv = (isinstance(v, ast.List) and not v.elts) or v is c or (isinstance(v, ast.Call) and u(v.func) == "range")
+                    rep.check(okv, R, ix.site(ex, a), "`%s`: the header values are replayed as collected (a Python list / range; no conversion that could coerce or reorder them)" % " ".join(u(a).split())[:60],
+                              "the values are converted before the per-value type check (e.g. np.array coerces a mixed list to one dtype)", key="outer convert|" + " ".join(u(a).split())[:60])
 
 
 # -------------------------------------------------------------------------------------- C06.5 scope
